@@ -211,6 +211,17 @@ func TestVerifC20(t *testing.T) {
 				if err == nil || !errors.Is(err, ErrTransportProtocolNotSupported) || ct != nil {
 					c.Fail("C20|component-accepts-ws", k.addr, "NewComponentTransport(%q) = %T, %v; want ErrTransportProtocolNotSupported", k.addr, ct, err)
 				}
+				// the same through the constructor, which is how applications get a component: Connect must refuse
+				// the address (nothing is dialled for a refused address)
+				comp, nerr := NewComponent(ComponentOptions{TransportConfiguration: TransportConfiguration{Address: k.addr, Domain: "d"},
+					Domain: "d", Secret: "s", Name: "n", Category: "gateway", Type: "service"}, NewRouter(), func(error) {})
+				if nerr != nil {
+					if !errors.Is(nerr, ErrTransportProtocolNotSupported) {
+						c.Fail("C20|component-accepts-ws|via-newcomponent", k.addr, "NewComponent with address %q failed with %v", k.addr, nerr)
+					}
+				} else if cerr := comp.Connect(); cerr == nil || !errors.Is(cerr, ErrTransportProtocolNotSupported) {
+					c.Fail("C20|component-accepts-ws|via-newcomponent", k.addr, "a component built by NewComponent with address %q: Connect returned %v, want ErrTransportProtocolNotSupported", k.addr, cerr)
+				}
 			} else if err != nil {
 				c.Fail("C20|component-refuses-plain|scheme", k.addr, "NewComponentTransport(%q) failed: %v", k.addr, err)
 			} else if _, ok := ct.(*XMPPTransport); !ok {
